@@ -1,22 +1,47 @@
 #!/usr/bin/env python3
-"""Print the markdown table of seeded changes (seeded/*/meta.json) for DESIGN.md section 9.3."""
+"""Write the markdown tables of seeded changes (seeded/*/meta.json) for DESIGN.md section 9.3/9.4."""
 import glob, json, os, re
-rows = []
-for d in sorted(glob.glob("/verif/seeded/*/")):
-    m = json.load(open(os.path.join(d, "meta.json")))
-    r = m["result"]
-    notes = open(os.path.join(d, "notes.md")).read() if os.path.exists(os.path.join(d, "notes.md")) else ""
-    files = sorted(set(re.findall(r"^\+\+\+ b/(\S+)", open(os.path.join(d, "patch.diff")).read(), re.M)))
-    caught = []
-    for c, v in r["checks"].items():
-        if v["exit"] == 1:
-            kinds = []
-            fr = v.get("first_replay", {})
-            nf = any("no-failing-input-found" in l for l in v["violation_lines"])
-            caught.append(c + (" (witness: " + fr.get("stream", "?") + ")" if fr.get("kind") == "witness" else (" (no-failing-input-found)" if nf else "")))
-    missed = [c for c, v in r["checks"].items() if v["exit"] != 1]
-    rows.append((os.path.basename(d.rstrip("/")), ", ".join(files), "; ".join(caught) or "—", ", ".join(missed) or "—"))
-print("| seed | files changed | flagged by (quick tier) | run but silent |")
-print("|---|---|---|---|")
-for r in rows:
-    print("| " + " | ".join(r) + " |")
+strengthened = {
+ "C16-A":"c16p: en-passant/promotion/castling moves always tried as hash move; en-passant-rich roots",
+ "C08-A":"new stream c08par (≥4 engines without WithCounters vs a solo run)",
+ "C01-A":"new stream c01reach (reached positions judged against iterated succ_spec) + en-passant corner cases",
+ "C01-B":"gen stream: dense pawn/castling placements (generator of c05)",
+ "C15-D":"new stream c15big (8–24 MB tables, odd bucket counts, GOMAXPROCS 2..64, keys at first/last buckets and chunk boundaries)",
+ "C13-C":"c13: long info lines (200–1200 bytes), slow stdout consumer, congested-output family",
+ "C10-C":"new stream c10two (several StartPos boards alive, interleaved games); also registered under C03/C04",
+ "C10-D":"new stream c10reuse (unrelated move lists on one reused driver)",
+ "C11-C":"new stream c11seq (3–5 position commands on one driver, repeated rejected FEN with extended list)",
+ "C04-D":"c10two (registered under C04 and C03 as well)",
+ "C08-C":"new stream c08clear (k searches incl. k = 255/256/257…, Clear/ucinewgame, must equal a fresh engine)",
+ "C01-D":"new stream c11reuse (ParseFEN / epd.Parse into a reused Board vs a fresh parse)",
+ "C17-C":"c17: per-term activation measured (c17act) and king-zone/outpost/rook-line generators added; 5000 cases",
+ "C09-C":"c09: constructive only-en-passant family (posgen/eponly.go)",
+ "C09-D":"c09: constructive only-en-passant family, two capturers one pinned",
+ "C18-D":"c18: same-kind (promoted) attacker groups with x-rays; shares by cases; 100k cases",
+ "C05-D":"c05/c01 generator: pawns around the en-passant square, doubled enemy pawns on its file",
+}
+def describe(v):
+    fr = v.get("first_replay", {})
+    if fr.get("kind") == "witness":
+        return " (witness, stream " + fr.get("stream", "?") + ")"
+    if v["violation_lines"] and all("no-failing-input-found" in l for l in v["violation_lines"]):
+        return " (no-failing-input-found)"
+    return " (witness)"
+out = ["| seed | files changed | flagged by (quick tier, machinery as committed) | also run, silent | missed at first → what was strengthened |", "|---|---|---|---|---|"]
+for d in sorted(glob.glob("/verif/seeded/C*/")):
+    name = os.path.basename(d.rstrip("/"))
+    r = json.load(open(d + "meta.json"))["result"]
+    files = sorted(set(re.findall(r"^\+\+\+ b/(\S+)", open(d + "patch.diff").read(), re.M)))
+    caught = [c + describe(v) for c, v in r["checks"].items() if v["exit"] == 1]
+    silent = [c for c, v in r["checks"].items() if v["exit"] != 1]
+    out.append("| " + " | ".join((name, ", ".join(files), "; ".join(caught) or "**none**", ", ".join(silent) or "—", strengthened.get(name, ""))) + " |")
+open("/tmp/seedtable.md", "w").write("\n".join(out) + "\n")
+h = ["| probe | change | silent | `no-failing-input-found` | alarm with a witness |", "|---|---|---|---|---|"]
+for d in sorted(glob.glob("/verif/seeded/harmless-*/")):
+    name = os.path.basename(d.rstrip("/"))
+    r = json.load(open(d + "meta.json"))["result"]
+    notes = open(d + "notes.md").read() if os.path.exists(d + "notes.md") else ""
+    first = next((l.strip("# ").strip() for l in notes.split("\n") if l.strip()), "")
+    h.append("| " + " | ".join((name, first[:110], ", ".join(r["silent"]) or "—", ", ".join(r["no_failing_input_found"]) or "—", ", ".join(r["false_alarm_with_witness"]) or "—")) + " |")
+open("/tmp/harmtable.md", "w").write("\n".join(h) + "\n")
+print(len(out) - 2, "seeds;", len(h) - 2, "harmless probes")
